@@ -454,15 +454,21 @@ pub fn c16_cli(args: &Args, run: &mut Run, sources: &[String]) -> Option<serde_j
         let dir = model::run::root().join(format!("work/cli-scratch/c16-{name}"));
         std::fs::create_dir_all(&dir).unwrap();
         let cli = Cli { bin, dir: dir.clone() };
-        // the first source (the only one on replay) finds a longer file of some earlier generation at the output path
+        // all inputs exist before the first run: every output written below is younger than the inputs still to come,
+        // which is what a build that regenerates several lexers into one place looks like
+        for (i, src) in sources.iter().enumerate() {
+            std::fs::write(dir.join(format!("input_{i}.rs")), src).unwrap();
+        }
+        // the first source (the only one on replay) finds a longer, younger file of some earlier generation at the output path
         std::fs::write(dir.join("out.gen.rs"), "// output of an earlier run\n".repeat(4000)).unwrap();
-        for src in sources {
-            std::fs::write(dir.join("input.rs"), src).unwrap();
+        for (i, src) in sources.iter().enumerate() {
+            let inp = format!("input_{i}.rs");
+            let inp = inp.as_str();
             // out.gen.rs keeps the output of the previous source (longer or shorter than this one): the result of a
             // run must not depend on what the output path held before
-            let (c1, o1, e1) = cli.run(&["input.rs"]);
-            let (c2, o2, _) = cli.run(&["input.rs"]);
-            let (c3, o3, _) = cli.run(&["input.rs"]);
+            let (c1, o1, e1) = cli.run(&[inp]);
+            let (c2, o2, _) = cli.run(&[inp]);
+            let (c3, o3, _) = cli.run(&[inp]);
             run.eval(3);
             if c1 != 0 {
                 run.count("cli_rejected_inputs", 1);
@@ -472,14 +478,14 @@ pub fn c16_cli(args: &Args, run: &mut Run, sources: &[String]) -> Option<serde_j
             if o1 != o2 || o1 != o3 || c2 != 0 || c3 != 0 {
                 return Some(json!({"property": "C16", "tier": "L", "generator": name, "source": src, "findings": [{"property": "C16", "what": "logos-cli printed different output in different processes for the same input"}]}));
             }
-            let (cw, _, _) = cli.run(&["input.rs", "--output", "out.gen.rs"]);
-            let (cc, _, _) = cli.run(&["input.rs", "--check", "--output", "out.gen.rs"]);
+            let (cw, _, _) = cli.run(&[inp, "--output", "out.gen.rs"]);
+            let (cc, _, _) = cli.run(&[inp, "--check", "--output", "out.gen.rs"]);
             run.eval(2);
             if cw != 0 || cc != 0 {
                 return Some(json!({"property": "C16", "tier": "L", "generator": name, "source": src, "findings": [{"property": "C16", "what": format!("--check fails (exit {cc}) right after writing the output (exit {cw}): generation is not reproducible")}]}));
             }
             let _ = std::fs::remove_file(dir.join("fresh.gen.rs"));
-            let (cf, _, _) = cli.run(&["input.rs", "--output", "fresh.gen.rs"]);
+            let (cf, _, _) = cli.run(&[inp, "--output", "fresh.gen.rs"]);
             run.eval(1);
             let with_history = std::fs::read(dir.join("out.gen.rs")).unwrap_or_default();
             let fresh = std::fs::read(dir.join("fresh.gen.rs")).unwrap_or_default();
